@@ -372,9 +372,9 @@ func runC12(p *core.Prog, r *core.Report) {
 		r.Check(okH, "C12.R2", "BuildRequestDetails/handoff", "LinearHandoffBlockNum is the result of computeLinearHandoffBlockNum", "assigned from something else", p.Pos(fn.Pos()))
 		for _, c := range core.FindInstrs(fn, core.IsCallTo(clh)) {
 			args := c.(ssa.CallInstruction).Common().Args
-			a1 := core.Trace(args[1], 0)
-			a2 := core.Trace(args[2], 0)
-			a4 := core.Trace(args[4], 1)
+			a1 := core.TraceFrom(fn, args[1], 0)
+			a2 := core.TraceFrom(fn, args[2], 0)
+			a4 := core.TraceFrom(fn, args[4], 1)
 			ok := a1.Fields[start] && hasFieldNamed(a2, "StopBlockNum") && a4.HasCall(p.FuncObj(pkgPipe, "reprocStateRequired"))
 			r.Check(ok, "C12.R2", "BuildRequestDetails/handoff-args", "the hand-off is computed from the resolved start block, the request's stop block and the lowest store needing history", "argument provenance differs", p.Pos(c.Pos()))
 		}
@@ -383,8 +383,8 @@ func runC12(p *core.Prog, r *core.Report) {
 		rsr := p.FuncObj(pkgPipe, "reprocStateRequired")
 		for _, c := range core.FindInstrs(fn, core.IsCallTo(rsr)) {
 			args := c.(ssa.CallInstruction).Common().Args
-			a0 := core.Trace(args[0], 0)
-			ok := a0.Fields[start] && !hasFieldNamed(a0, "StartBlockNum") && hasFieldNamed(core.Trace(args[1], 0), "OutputModule") && hasFieldNamed(core.Trace(args[2], 0), "Modules")
+			a0 := core.TraceFrom(fn, args[0], 0) // (the call may sit in a helper that is handed the resolved start block)
+			ok := a0.Fields[start] && !hasFieldNamed(a0, "StartBlockNum") && hasFieldNamed(core.TraceFrom(fn, args[1], 0), "OutputModule") && hasFieldNamed(core.TraceFrom(fn, args[2], 0), "Modules")
 			r.Check(ok, "C12.R2", "BuildRequestDetails/reproc-args", "stores needing history are those starting below the resolved start block (cursor-resolved, not the request's raw start) among the ancestors of the requested output module", "argument provenance differs", p.Pos(c.Pos()))
 		}
 		rf := p.Func(pkgPipe, "reprocStateRequired")
@@ -494,12 +494,24 @@ func runC12(p *core.Prog, r *core.Report) {
 					return
 				}
 				// guarded by rem != 0
+				// (written `if rem != 0 { … }` or as an early return on `rem == 0`: the addition lies behind the non-zero edge)
 				for _, ref := range *rem.Referrers() {
-					if cmp, ok := ref.(*ssa.BinOp); ok && cmp.Op == token.NEQ && isZeroConst(cmp.Y) {
-						for _, rr := range *cmp.Referrers() {
-							if ifi, ok := rr.(*ssa.If); ok && ifi.Block().Succs[0] == add.Block() && len(add.Block().Preds) == 1 {
-								okCeil = true
-							}
+					cmp, ok := ref.(*ssa.BinOp)
+					if !ok || (cmp.Op != token.NEQ && cmp.Op != token.EQL) || !isZeroConst(cmp.Y) {
+						continue
+					}
+					for _, rr := range *cmp.Referrers() {
+						ifi, ok := rr.(*ssa.If)
+						if !ok {
+							continue
+						}
+						nz := 0
+						if cmp.Op == token.EQL {
+							nz = 1
+						}
+						sb := ifi.Block().Succs[nz]
+						if len(sb.Preds) == 1 && (sb == add.Block() || sb.Dominates(add.Block())) {
+							okCeil = true
 						}
 					}
 				}
@@ -782,17 +794,27 @@ func checkImpossibleRequests(p *core.Prog, r *core.Report) {
 	}
 	// start == stop != 0 in tier1.blocks
 	tb := p.Func(pkgSvc, "Tier1Service.blocks")
-	isStart := func(v ssa.Value) bool {
+	// (in blocks or in the helper that validates the two numbers, whose parameters stand for the fields handed to it)
+	named := func(v ssa.Value, field string) bool {
 		f, _ := core.LoadedField(core.SkipConv(v))
-		return f != nil && f.Name() == "ResolvedStartBlockNum"
+		if f != nil && f.Name() == field {
+			return true
+		}
+		if cv := core.CallerValue(tb, v); cv != v {
+			f, _ := core.LoadedField(core.SkipConv(cv))
+			return f != nil && f.Name() == field
+		}
+		return false
 	}
+	isStart := func(v ssa.Value) bool { return named(v, "ResolvedStartBlockNum") }
+	isStopT := func(v ssa.Value) bool { return named(v, "StopBlockNum") }
 	okSame := false
-	core.Instrs(tb, func(in ssa.Instruction) {
+	core.InstrsDeep(tb, func(in ssa.Instruction) {
 		ifi, ok := in.(*ssa.If)
 		if !ok {
 			return
 		}
-		if onT, _, ok := core.CondRelation(ifi.Cond, isStart, isStop); ok && onT == core.OrdEQ {
+		if onT, onF, ok := core.CondRelation(ifi.Cond, isStart, isStopT); ok && (onT == core.OrdEQ || onF == core.OrdEQ) {
 			okSame = true
 		}
 	})
@@ -838,7 +860,17 @@ func checkCursorResolution(p *core.Prog, r *core.Report, rule string) {
 			continue
 		}
 		for _, w := range ws {
-			r.Check(core.SliceReaches(w.(*ssa.Store).Val, junction, 2), rule, "resolve/"+chk.field, chk.desc, "value does not derive from the junction returned by the cursor resolver", p.Pos(w.Pos()))
+			val := w.(*ssa.Store).Val
+			fromJunction := core.SliceReaches(val, junction, 2)
+			if !fromJunction {
+				// built in a helper that is handed the junction
+				for prm := range core.Trace(val, 2).Params {
+					if cv := core.CallerValue(fn, prm); cv != ssa.Value(prm) && (cv == junction || core.SliceReaches(cv, junction, 2)) {
+						fromJunction = true
+					}
+				}
+			}
+			r.Check(fromJunction, rule, "resolve/"+chk.field, chk.desc, "value does not derive from the junction returned by the cursor resolver", p.Pos(w.Pos()))
 		}
 	}
 	// the undo signal is only built when the junction differs from the cursor's block
